@@ -61,10 +61,10 @@ def groups(sc, tier):
     n_decided = len(re.findall(r'"([^"]*)"', m.group(1).split("/*ATTEMPT*/")[0]))
     for k, txt in enumerate(shapes_txt):
         gs.append(Group("C07.K5.scanner_shape.%d" % k, "K5", "lemma_scanner_shape", sources=["src/xraylib-parser.c", "src/xraylib-aux.c"], extra=["harness/h_parser.c"],
-                        export_local=True, defines=["-D__NO_CTYPE"], harness_defines=["-DNMAXEL=%d" % n, "-DLEMMA_SCAN", "-DSHAPE=%d" % k] + (["-DNO_COUNTS"] if re.search(r"[0-9]", txt) else []),
+                        export_local=True, defines=["-D__NO_CTYPE", "-include", os.path.join(VERIF, "harness/realloc_typed.h")], harness_defines=["-DNMAXEL=%d" % n, "-DLEMMA_SCAN", "-DSHAPE=%d" % k] + (["-DNO_COUNTS"] if re.search(r"[0-9]", txt) else []),
                         backends=("sat", "cvc5"), timeout=900, unwind=20, functions=["CompoundParserSimple", "compareCompoundAtoms"],
                         # at most 4 distinct elements: tight bounds for the loops over the element list (unwinding assertions stay on)
-                        flags=["--unwindset", ",".join("%s:6" % l for l in ("qsort.0", "qsort.1", "bsearch.0", "bsearch.1", "realloc.0", "realloc.1",
+                        flags=["--unwindset", ",".join("%s:6" % l for l in ("qsort.0", "qsort.1", "bsearch.0", "bsearch.1", "xrlv_realloc.0", "xrlv_realloc.1",
                                                                           "__CPROVER_file_local_xraylib_parser_c_CompoundParserSimple.6"))],
                         attempt_only=(k >= n_decided), note="" if k < n_decided else "group merged into a non-empty element list: no back end finishes (memory)",
                         bounded="formula shape '%s'; atomic numbers behind the letters and subscript values symbolic" % txt))
